@@ -1819,6 +1819,13 @@ impl<'a, MutexType, T> FusedFuture for ChannelReceiveFuture<'a, MutexType, T> {'
     {'name': 'benign-refactor-RF57-oneshots-7', 'props': ALLP + ['C16'], 'patch': 'benign/RF57/patch.diff'},
     {'name': 'benign-refactor-RF58-state-broadcast-futures-7', 'props': ALLP + ['C16'], 'patch': 'benign/RF58/patch.diff'},
     {'name': 'benign-refactor-RF59-containers-7', 'props': ALLP + ['C16'], 'patch': 'benign/RF59/patch.diff'},
+    {'name': 'benign-refactor-RF60-mutex-8', 'props': ALLP + ['C16'], 'patch': 'benign/RF60/patch.diff'},
+    {'name': 'benign-refactor-RF61-semaphore-8', 'props': ALLP + ['C16'], 'patch': 'benign/RF61/patch.diff'},
+    {'name': 'benign-refactor-RF62-event-timer-8', 'props': ALLP + ['C16'], 'patch': 'benign/RF62/patch.diff'},
+    {'name': 'benign-refactor-RF63-mpmc-8', 'props': ALLP + ['C16'], 'patch': 'benign/RF63/patch.diff'},
+    {'name': 'benign-refactor-RF64-oneshots-8', 'props': ALLP + ['C16'], 'patch': 'benign/RF64/patch.diff'},
+    {'name': 'benign-refactor-RF65-state-broadcast-futures-8', 'props': ALLP + ['C16'], 'patch': 'benign/RF65/patch.diff'},
+    {'name': 'benign-refactor-RF66-containers-8', 'props': ALLP + ['C16'], 'patch': 'benign/RF66/patch.diff'},
     {'name': 'benign-unrelated-additions', 'props': ALLP, 'edits': [
         {'file': 'src/sync/semaphore.rs',
          'old': '''    /// Returns the amount of permits that are available on the semaphore
